@@ -327,7 +327,8 @@ def run(ctx):
     cov["pairs_enumerated"] = len(pairs)
     with scratch("c01") as d:
         tbdir = d / "tb"
-        results = rr.run_cases([rec_to_case(r) for r in single], d / "w", tbdir, with_ld=True, native=True, jobs=8)
+        results = rr.run_cases([rec_to_case(r) for r in single], d / "w", tbdir, with_ld="auto" if ctx.quick else True,
+                               native=True, jobs=8)
         s1, n1 = judge(ctx, results, single, cov, "")
         for res, rec in list(zip(results, single))[:200]:
             if res["real"] == "link-ok" and len(cov["samples"]) < 4 and res["obs"]["facts"]:
